@@ -164,5 +164,5 @@ PROPS = {
              'instance is reset at the start of each use or holds only pure results keyed by absolute path; default '
              'mutable arguments are never mutated; output names depend on the input basename only.',
              'determinism of ply/ElementTree internals',
-             'set-order/nondeterminism-source taint, must-reset rule on shared state'),
+             'set-order/nondeterminism-source taint, must-reset rule on shared state', claimed=True),
 }
